@@ -64,17 +64,20 @@ func sibling() *Machine {
 		rom := BlankROM(0, 0, 0)
 		Put(rom, 0x40, 0x3c, 0xd9) // INC A; RETI
 		Put(rom, 0x100, 0x00, 0xc3, 0x50, 0x01)
-		// LD SP,DFF0; LD A,01; LDH (FF),A; LDH (0F),A; EI; NOP; LD HL,C123
-		Put(rom, 0x150, 0x31, 0xf0, 0xdf, 0x3e, 0x01, 0xe0, 0xff, 0xe0, 0x0f, 0xfb, 0x00, 0x21, 0x23, 0xc1,
-			// loop: INC A; palettes, scroll, window, wave RAM, envelope, serial, TMA, work RAM; JR loop
-			0x3c, 0xe0, 0x47, 0xe0, 0x48, 0xe0, 0x49, 0xe0, 0x42, 0xe0, 0x43, 0xe0, 0x4a, 0xe0, 0x4b, 0xe0, 0x30, 0xe0, 0x12, 0xe0, 0x01, 0xe0, 0x06, 0x77, 0x18, 0xe6)
+		// LD SP,DFF0; sound hardware off and on again (XOR A; LDH (26),A; LD A,80; LDH (26),A);
+		// LD A,01; LDH (FF),A; LDH (0F),A; EI; NOP; LD HL,C123
+		Put(rom, 0x150, 0x31, 0xf0, 0xdf, 0xaf, 0xe0, 0x26, 0x3e, 0x80, 0xe0, 0x26, 0x3e, 0x01, 0xe0, 0xff, 0xe0, 0x0f, 0xfb, 0x00, 0x21, 0x23, 0xc1,
+			// loop: INC A; palettes, scroll, window, wave RAM, envelope, sweep, serial, TMA, an OAM DMA transfer, work RAM;
+			// channel 1 restarted (LD B,A; LD A,87; LDH (14),A; LD A,B); JR loop
+			0x3c, 0xe0, 0x47, 0xe0, 0x48, 0xe0, 0x49, 0xe0, 0x42, 0xe0, 0x43, 0xe0, 0x4a, 0xe0, 0x4b, 0xe0, 0x30, 0xe0, 0x12, 0xe0, 0x10, 0xe0, 0x01, 0xe0, 0x06, 0xe0, 0x46, 0x77,
+			0x47, 0x3e, 0x87, 0xe0, 0x14, 0x78, 0x18, 0xdc)
 		siblingROM = rom
 	}
 	b, err := New(siblingROM, Opts{noBystander: true})
 	if err != nil {
 		panic("rig: the bystander machine does not load: " + err.Error())
 	}
-	for k := 0; k < 160; k++ { // start-up, the interrupt and more than one pass through its loop
+	for k := 0; k < 240; k++ { // start-up, the interrupt and more than one pass through its loop
 		b.Step()
 	}
 	Siblings++
